@@ -605,9 +605,34 @@ func writeTypeConversion(w *formatting.IndentedWriter, typeChange dsl.TypeChange
 				rhs = sourceName
 			}
 
+			// std::stoi and std::stoul return a wider type than these: a number that does not fit is a
+			// conversion error like any other, not something to truncate
+			narrowSigned, narrowUnsigned := false, false
+			switch def.(dsl.PrimitiveDefinition) {
+			case dsl.PrimitiveInt8, dsl.PrimitiveInt16:
+				narrowSigned = true
+			case dsl.PrimitiveUint8, dsl.PrimitiveUint16, dsl.PrimitiveUint32:
+				narrowUnsigned = true
+			}
+
 			fmt.Fprintf(w, "try {\n")
 			w.Indented(func() {
-				fmt.Fprintf(w, "%s = %s;\n", targetName, rhs)
+				if narrowSigned || narrowUnsigned {
+					oldTypeSyntax := common.TypeSyntax(tc.OldType())
+					fmt.Fprintf(w, "auto parsed_ = %s;\n", rhs)
+					if narrowSigned {
+						fmt.Fprintf(w, "if (parsed_ > std::numeric_limits<%s>::max() || parsed_ < std::numeric_limits<%s>::lowest()) {\n", oldTypeSyntax, oldTypeSyntax)
+					} else {
+						fmt.Fprintf(w, "if (parsed_ > std::numeric_limits<%s>::max()) {\n", oldTypeSyntax)
+					}
+					w.Indented(func() {
+						fmt.Fprintf(w, "throw std::out_of_range(\"number out of range\");\n")
+					})
+					fmt.Fprintf(w, "}\n")
+					fmt.Fprintf(w, "%s = static_cast<%s>(parsed_);\n", targetName, oldTypeSyntax)
+				} else {
+					fmt.Fprintf(w, "%s = %s;\n", targetName, rhs)
+				}
 			})
 			fmt.Fprintf(w, "} catch (...) {\n")
 			w.Indented(func() {
